@@ -480,6 +480,7 @@ type fatSys struct {
 	// what the writing handle showed after its Write was refused (judged against the fresh-handle view of the same file)
 	shRefused *refusedHandleView
 	// a handle that stays open across other calls (letters hold / heldwrite / release; structural oracles only)
+	reopened  bool // the live filesystem object came from Read (a later session), not from Create
 	held      filesystem.File
 	heldPath  string
 	heldStale int // calls made since the handle was opened
@@ -673,6 +674,7 @@ func (s *fatSys) apply(op fsOp) (err error, viols []explore.Viol) {
 			return err, viols
 		}
 		s.fs = nfs
+		s.reopened = true
 		return nil, viols
 	case "mkdir":
 		pm := guard(func() { err = s.fs.Mkdir(op.Path) })
@@ -1184,6 +1186,11 @@ func (s *fatSys) key() [32]byte {
 	}
 	md := s.model.digest()
 	h.Write(md[:])
+	if s.reopened {
+		// an object built by Read and one built by Create are merged only with their own kind: what the exported in-memory
+		// state does not show (where backups go, which fields Read fills in differently) may still differ between them
+		h.Write([]byte("lineage:read"))
+	}
 	if s.held != nil {
 		// the open handle caches size, cursor and (FAT) its cluster list: how stale it is belongs to the state
 		sz := int64(-1)
